@@ -616,6 +616,7 @@ LADDER = (
     ("full", "pat", "z3", 0.5), ("full", "pat", "z3-old", 1.0), ("s2q", "rec", "z3", 0.5), ("s2q", "abs", "z3", 0.3),
 )
 CANARY_LADDER = (("s1", "abs", "z3", 0.15), ("full", "rec", "z3", 0.2))
+RETRY_LADDER = (("s1", "rec", "cvc5", 0.5), ("full", "rec", "cvc5", 1.0), ("full", "rec", "z3", 1.0), ("full", "pat", "z3-old", 0.5))
 
 
 def _solve_sub(variants, budget, ladder):
@@ -690,8 +691,17 @@ def solve_all(obligations, budget=10, workers=16, tmpdir=None, portfolio=None):
         else:
             ob.reason = (ob.reason or "") + " [full ladder skipped: clause already undecided on %d paths]" % MAX_FULL_PER_CLAUSE
     st2 = _solve_phase(todo, budget, workers, tmpdir, portfolio or LADDER) if todo else {"solve_wall_s": 0, "queries": 0}
-    return {"solve_wall_s": round(st1["solve_wall_s"] + st2["solve_wall_s"], 2), "queries": st1["queries"] + st2["queries"],
-            "phase2_obligations": len(todo)}
+    # phase 3: a handful of obligations that only ran out of (wall-clock) time get one more try with five times the budget - on a loaded machine a query that
+    # takes a second can miss a 10 s limit; a verdict must not depend on how busy the cores are
+    late = [ob for ob in todo if ob.status == "undecided" and ob.kind != "canary"]
+    st3 = {"solve_wall_s": 0, "queries": 0}
+    if 0 < len(late) <= 12:
+        for ob in late:
+            ob.extra["phase2_runs"] = ob.extra.get("solver_runs")
+            ob.status, ob.reason = None, None
+        st3 = _solve_phase(late, budget * 5, workers, tmpdir, RETRY_LADDER)
+    return {"solve_wall_s": round(st1["solve_wall_s"] + st2["solve_wall_s"] + st3["solve_wall_s"], 2), "queries": st1["queries"] + st2["queries"] + st3["queries"],
+            "phase2_obligations": len(todo), "phase3_obligations": len(late) if 0 < len(late) <= 12 else 0}
 
 
 def _solve_phase(obligations, budget, workers, tmpdir, portfolio):
